@@ -460,6 +460,19 @@ fn run_slice(family: &str, thorough: bool, start: usize, end: usize, stride: usi
     }
     use std::os::unix::process::ExitStatusExt;
     if let Some(t) = timeout_at {
+        // a time-out is a wall-clock observation: confirm it alone in a fresh worker before believing it
+        if !(end == start + 1 && stride == 1) {
+            let again = run_slice(family, thorough, t, t + 1, 1, 0);
+            if !again.obs.iter().any(|o| matches!(o, Obs::Timeout { .. })) {
+                res.obs.retain(|o| !matches!(o, Obs::Timeout { index, .. } if *index == t));
+                res.obs.extend(again.obs);
+                res.done += again.done;
+                for k in 0..4 {
+                    res.reached[k] += again.reached[k];
+                }
+                res.slowest = res.slowest.max(again.slowest);
+            }
+        }
         // continue behind the input that timed out
         let rest = run_slice(family, thorough, t + 1, end, stride, offset);
         res.obs.extend(rest.obs);
